@@ -118,7 +118,9 @@ void family_queue() {
         for (auto &t : th) t.join();
     } else {
         cocls::limited_queue<Msg> q(1 + dsim::choose(2));
-        for (int p = 0; p < np; p++) th.emplace_back([&q, p, per] { for (int i = 0; i < per; i++) { long v = p * 100 + i + 1; auto f = q.push(Msg{v, v * 2, v * 3}); f.wait(); dsim::cell_add(OBS + 9, (long)q.size()); } });
+        // a push failed by unblock_push withdrew its item: the producer pushes it again, so the sum is unchanged
+        for (int p = 0; p < np; p++) th.emplace_back([&q, p, per] { for (int i = 0; i < per;) { long v = p * 100 + i + 1; auto f = q.push(Msg{v, v * 2, v * 3}); try { f.wait(); i++; } catch (const vs::TestError &) {} dsim::cell_add(OBS + 9, (long)q.size()); } });
+        if (unblocker) th.emplace_back([&q] { for (int i = 0; i < 2; i++) { (void)(bool)q.unblock_push(vs::make_err(2)); std::this_thread::yield(); } });
         int given = 0;
         for (int c = 0; c < nc; c++) { int n = c == nc - 1 ? total - given : total / nc; given += n; th.emplace_back([&q, n, k = ck[c]] { if (k) lq_consumer(q, n).join(); else for (int i = 0; i < n; i++) { auto f = q.pop(); Msg m = f.wait(); m.check(); dsim::cell_add(SUM, m.a); } }); }
         for (auto &t : th) t.join();
